@@ -297,6 +297,21 @@ impl NoGoodStore {
     }
 }
 
+#[cfg(adf_obdd_verif)]
+impl NoGoodStore {
+    /// Public wrapper around the crate-private conclusion closure, only available for verification builds.
+    ///
+    /// `Ok(Some(_))` is an update, `Ok(None)` no update, and `Err(())` an inconsistency.
+    #[allow(clippy::result_unit_err)]
+    pub fn verif_conclusion_closure(&self, interpretation: &[Term]) -> Result<Option<Vec<Term>>, ()> {
+        match self.conclusion_closure(interpretation) {
+            ClosureResult::Update(val) => Ok(Some(val)),
+            ClosureResult::NoUpdate => Ok(None),
+            ClosureResult::Inconsistent => Err(()),
+        }
+    }
+}
+
 /// Allows to define how costly the DuplicateElemination is done.
 #[derive(Debug, Copy, Clone)]
 pub enum DuplicateElemination {
